@@ -30,7 +30,8 @@ Oracle (value cases)
   of a covered type) fails stand-alone through that type's own class, the component's failure is reported instead.
   real-block: the main-net block bundled in tests/test_cell.py is decoded by refboc + reftlb with the same tables (as far as
   they reach: opaque cells for the types of the other half; pruned branches of the state update stop the descent) and
-  compared component by component with what Block.deserialize returns (same signatures as clause 2; real-block/raises/.. when Block.deserialize raises).
+  compared component by component with what Block.deserialize returns (signatures as in clause 2, named after the innermost
+  covered type holding the field; real-block/raises/.. when Block.deserialize itself raises).
 
 Not asserted (deliberately)
   * `type_` label strings and any attribute that is not a schema field; object identity; repr.
@@ -60,11 +61,17 @@ from harness.core import Sub, Fail, call, exc_sig, load_known
 from harness.ref import reftlb as R
 from harness.ref import tlb_block as B
 
+ASSUMPTIONS = ['harness/ref/reftlb.py + tlb_block.py + tlb_msg.py: independent TL-B interpreter and schema tables, self-checked '
+               'at import on hand-assembled encodings (BlockInfo with every flag-dependent field, ValueFlow v1/v2, ShardDescr '
+               'old/new, ShardHashes, validators#11 with its inline dictionary root, validators_ext#12, CatchainConfig, '
+               'ConfigParams, McStateExtra, McBlockExtra, BlockExtra incl. its implicit CRC-32 tag, ShardStateUnsplit, Block)',
+               'harness/ref/refdict.py canonical Hashmap builder (validated by C09/C10), refcell.RCell, refboc.decode_strict',
+               'Builder.store_bits/store_ref/end_cell, Cell.begin_parse (used by lib_from_rcell to hand cells to the parsers)']
 RULE = ('blk: case = a reftlb-generated value of one of the covered block-level types (integers from {0, 1, max, max-1, '
         '2^(w-1), 2^(w-1)+-1} 40%, top-bit-set 20%, uniform 40%) + a sentinel tail of 0..64 random bits and 0..2 references. '
         'blk-ctor-grid enumerates every constructor alternative x flag / optional-field combination (BlockInfo: all 16 '
         'combinations of not_master, after_merge, vert_seqno_incr, flags.0; ValueFlow v1/v2; ShardDescr old/new x fsm_none/'
-        'split/merge; ValidatorSet #11/#12 x validator#53/#73 x 1..3 entries; CatchainConfig #c1/#c2; McStateExtra flags x '
+        'split/merge; ValidatorSet #11/#12 x validator#53/#73 x 0/1/2/3/6 entries; CatchainConfig #c1/#c2; McStateExtra flags x '
         'last_key_block x both BlockCreateStats; McBlockExtra key_block x Maybe x Maybe; ...) with hash-chosen and min/max '
         'values; blk-random draws type and value with Hypothesis. non-trivial = a non-first constructor, an optional / '
         'conditional field present, or an unsigned integer with its top bit set; distinct = distinct case. '
@@ -239,7 +246,7 @@ def conv(t, exp, o, ctx):
             return _unexpected(o)
         alt = t.by_name[exp['_']]
         if t.name == 'FutureSplitMerge' and exp['_'] == 'fsm_none':
-            return {'_': 'fsm_none'} if o is None else _unexpected(o)
+            return {'_': 'fsm_none'} if o is None or type(o).__name__ == 'FutureSplitMerge' else _unexpected(o)
         if t.name == 'Account' and exp['_'] == 'account_none':
             return {'_': 'account_none'} if o is None else _unexpected(o)
         if t.name == 'BinTree':
@@ -320,6 +327,8 @@ def _conv_shard_fees(t, exp, o, ctx):
     """declared `shard_fees: Cell`: the raw dictionary root (None when empty)"""
     if o is MISSING:
         return MISSING
+    if isinstance(o, tuple):
+        return _conv_dict(t, exp, o, ctx)                    # handed out parsed, like the other HashmapAugE fields
     b = R.encode(t, exp, R.Bld(), ctx)
     root = b.refs[0] if exp['items'] else None
     if root is None:
@@ -356,6 +365,8 @@ def _conv_dict(t, exp, o, ctx):
     if t.pruned_ok:
         got_extra = {k: x['extra'] for k, x in want.items()}   # partly pruned dictionary (real block): extras not compared
     elif want:
+        if len(extras) == len(order) + 1 and not inline and R.diff(exp['extra'], conv(t.y, exp['extra'], extras[-1], R.Ctx(ctx))) is None:
+            extras = extras[:-1]                             # the root extra appended after the nodes' extras: fine
         if len(extras) != len(order):
             problems = f'<{len(extras)} extras for {len(order)} nodes>'
         else:
@@ -568,9 +579,12 @@ def traced(s, trace):
                 if depth[0] == 0:
                     trace.append((total - len(s.bits), s.ref_offset))
         return f
-    for name in dir(type(s)):
-        if name.startswith(('load_', 'skip_')):
-            setattr(s, name, wrap(getattr(s, name)))
+    try:
+        for name in dir(type(s)):
+            if name.startswith(('load_', 'skip_')):
+                setattr(s, name, wrap(getattr(s, name)))
+    except (AttributeError, TypeError):
+        pass                                                 # no per-instance attributes: no trace, plain signatures
     return s
 
 
